@@ -186,4 +186,149 @@ theorem merged_dataset_loads (inv : Arr → Arr) (p : Probes) (h : ProbesOK p) :
   · show atleast 2 (squeeze (scrub (posArr _))) = _
     rw [posArr_load _ l7]; rfl
 
+/-! ### per-cluster metadata of the merged directory -/
+
+/-- the rows one probe contributes to the merged per-cluster file -/
+def cdRow {β : Type} (p : (Option (List (Nat × β)) × List Nat) × Nat) : List (Nat × β) :=
+  match p.1.1 with
+  | none => []
+  | some l => (l.filter fun kv => kv.1 ≤ p.1.2.foldl max 0).map fun kv => (kv.1 + p.2, kv.2)
+
+theorem mergeClusterData_eq {β : Type} (md : List (Option (List (Nat × β)))) (ids : List (List Nat)) :
+    mergeClusterData md ids = (((md.zip ids).zip (idOffsets ids)).map cdRow).flatten := rfl
+
+theorem mem_cdRow {β : Type} (o : Option (List (Nat × β))) (a : List Nat) (off K : Nat) (v : β) :
+    (K, v) ∈ cdRow ((o, a), off) ↔
+      ∃ l c, o = some l ∧ (c, v) ∈ l ∧ c ≤ a.foldl max 0 ∧ K = c + off := by
+  cases o with
+  | none => simp [cdRow]
+  | some l =>
+    simp only [cdRow, List.mem_map, List.mem_filter, decide_eq_true_eq, Prod.mk.injEq,
+      Option.some.injEq, Prod.exists]
+    constructor
+    · rintro ⟨c, v', ⟨hm, hc⟩, rfl, rfl⟩
+      exact ⟨l, c, rfl, hm, hc, rfl⟩
+    · rintro ⟨l', c, rfl, hm, hc, rfl⟩
+      exact ⟨c, v, ⟨hm, hc⟩, rfl, rfl⟩
+
+theorem cdRow_range {β : Type} (o : Option (List (Nat × β))) (a : List Nat) (off : Nat)
+    (q : Nat × β) (hq : q ∈ cdRow ((o, a), off)) : off ≤ q.1 ∧ q.1 ≤ off + a.foldl max 0 := by
+  obtain ⟨K, v⟩ := q
+  obtain ⟨l, c, -, -, hc, rfl⟩ := (mem_cdRow o a off K v).1 hq
+  exact ⟨by omega, by omega⟩
+
+theorem cdRow_nodup {β : Type} (o : Option (List (Nat × β))) (a : List Nat) (off : Nat)
+    (h : ∀ l, o = some l → (l.map (·.1)).Nodup) : ((cdRow ((o, a), off)).map (·.1)).Nodup := by
+  cases o with
+  | none => simp [cdRow]
+  | some l =>
+    have h1 : ((l.filter fun kv => kv.1 ≤ a.foldl max 0).map (·.1)).Nodup :=
+      (h l rfl).sublist (List.filter_sublist.map _)
+    have h2 : (cdRow ((some l, a), off)).map (·.1) =
+        ((l.filter fun kv => kv.1 ≤ a.foldl max 0).map (·.1)).map (· + off) := by
+      simp [cdRow, List.map_map, Function.comp_def]
+    rw [h2]
+    exact List.Pairwise.map (· + off) (fun x y (hxy : x ≠ y) => by show x + off ≠ y + off; omega) h1
+
+theorem mem_mergeClusterData {β : Type} (md : List (Option (List (Nat × β)))) (ids : List (List Nat))
+    (K : Nat) (v : β) :
+    (K, v) ∈ mergeClusterData md ids ↔
+      ∃ k l c, md[k]? = some (some l) ∧ k < ids.length ∧ (c, v) ∈ l ∧
+        c ≤ (ids.getD k []).foldl max 0 ∧ K = c + (idOffsets ids).getD k 0 := by
+  rw [mergeClusterData_eq]
+  constructor
+  · intro h
+    obtain ⟨row, hrow, hK⟩ := List.mem_flatten.1 h
+    obtain ⟨⟨⟨o, a⟩, off⟩, hp, rfl⟩ := List.mem_map.1 hrow
+    obtain ⟨k, hk⟩ := List.mem_iff_getElem?.1 hp
+    rw [List.getElem?_zip_eq_some] at hk
+    obtain ⟨hk1, hk3⟩ := hk
+    rw [List.getElem?_zip_eq_some] at hk1
+    obtain ⟨hk1, hk2⟩ := hk1
+    obtain ⟨l, c, rfl, hm, hc, rfl⟩ := (mem_cdRow o a off K v).1 hK
+    have hkl : k < ids.length := by
+      rcases Nat.lt_or_ge k ids.length with h | h
+      · exact h
+      · rw [List.getElem?_eq_none h] at hk2; cases hk2
+    refine ⟨k, l, c, hk1, hkl, hm, ?_, ?_⟩
+    · rw [List.getD_eq_getElem?_getD, hk2]; exact hc
+    · rw [List.getD_eq_getElem?_getD, hk3]; rfl
+  · rintro ⟨k, l, c, hk, hkl, hm, hc, rfl⟩
+    have hko : k < (idOffsets ids).length := by
+      unfold idOffsets; rw [idOffsetsFrom_length]; exact hkl
+    rw [List.mem_flatten]
+    refine ⟨cdRow ((some l, ids.getD k []), (idOffsets ids).getD k 0), ?_, ?_⟩
+    · rw [List.mem_map]
+      refine ⟨_, ?_, rfl⟩
+      rw [List.mem_iff_getElem?]
+      refine ⟨k, ?_⟩
+      rw [List.getElem?_zip_eq_some, List.getElem?_zip_eq_some]
+      refine ⟨⟨hk, ?_⟩, ?_⟩
+      · simp [List.getD_eq_getElem?_getD, List.getElem?_eq_getElem hkl]
+      · simp [List.getD_eq_getElem?_getD, List.getElem?_eq_getElem hko]
+    · exact (mem_cdRow _ _ _ _ _).2 ⟨l, c, rfl, hm, hc, rfl⟩
+
+/-- every key written from offset `off` on is at least `off` -/
+theorem cdFrom_ge {β : Type} (md : List (Option (List (Nat × β)))) :
+    ∀ (ids : List (List Nat)) (off : Nat),
+      ∀ q ∈ (((md.zip ids).zip (idOffsetsFrom off ids)).map cdRow).flatten, off ≤ q.1 := by
+  induction md with
+  | nil => intro ids off q hq; simp at hq
+  | cons o md ih =>
+    intro ids off q hq
+    cases ids with
+    | nil => simp at hq
+    | cons a ids =>
+      simp only [idOffsetsFrom, List.zip_cons_cons, List.map_cons, List.flatten_cons,
+        List.mem_append] at hq
+      rcases hq with hq | hq
+      · exact (cdRow_range o a off q hq).1
+      · have := ih ids _ q hq
+        omega
+
+theorem cdFrom_nodup {β : Type} (md : List (Option (List (Nat × β))))
+    (h : ∀ l, some l ∈ md → (l.map (·.1)).Nodup) :
+    ∀ (ids : List (List Nat)) (off : Nat),
+      (((((md.zip ids).zip (idOffsetsFrom off ids)).map cdRow).flatten).map (·.1)).Nodup := by
+  induction md with
+  | nil => intro ids off; simp
+  | cons o md ih =>
+    intro ids off
+    cases ids with
+    | nil => simp
+    | cons a ids =>
+      simp only [idOffsetsFrom, List.zip_cons_cons, List.map_cons, List.flatten_cons,
+        List.map_append]
+      rw [List.nodup_append]
+      refine ⟨cdRow_nodup o a off (fun l hl => h l (by simp [hl])),
+        ih (fun l hl => h l (List.mem_cons_of_mem _ hl)) ids _, ?_⟩
+      intro x hx y hy hxy
+      obtain ⟨q, hq, rfl⟩ := List.mem_map.1 hx
+      obtain ⟨r, hr, rfl⟩ := List.mem_map.1 hy
+      have h1 := (cdRow_range o a off q hq).2
+      have h2 := cdFrom_ge md ids _ r hr
+      omega
+
+theorem metadata_points_back {β : Type} (md : List (Option (List (Nat × β)))) (ids : List (List Nat))
+    (hlen : md.length = ids.length) :
+    (∀ K v, (K, v) ∈ mergeClusterData md ids →
+      ∃ k c l, md[k]? = some (some l) ∧ (c, v) ∈ l ∧ c ≤ (ids.getD k []).foldl max 0 ∧
+        K = c + (idOffsets ids).getD k 0 ∧ (clusterProbes ids).getD K ids.length = k) ∧
+    (∀ k l c v, md[k]? = some (some l) → (c, v) ∈ l → c ≤ (ids.getD k []).foldl max 0 →
+      (c + (idOffsets ids).getD k 0, v) ∈ mergeClusterData md ids) ∧
+    ((∀ l, some l ∈ md → (l.map (·.1)).Nodup) → ((mergeClusterData md ids).map (·.1)).Nodup) := by
+  refine ⟨?_, ?_, ?_⟩
+  · intro K v h
+    obtain ⟨k, l, c, hk, hkl, hm, hc, rfl⟩ := (mem_mergeClusterData md ids K v).1 h
+    exact ⟨k, c, l, hk, hm, hc, rfl, clusterProbes_ok ids k hkl c hc⟩
+  · intro k l c v hk hm hc
+    have hkl : k < ids.length := by
+      rcases Nat.lt_or_ge k md.length with h | h
+      · omega
+      · rw [List.getElem?_eq_none h] at hk; cases hk
+    exact (mem_mergeClusterData md ids _ v).2 ⟨k, l, c, hk, hkl, hm, hc, rfl⟩
+  · intro h
+    rw [mergeClusterData_eq]
+    exact cdFrom_nodup md h ids 0
+
 end PhyVerif.C11.Lemmas
